@@ -47,6 +47,13 @@ def candidates(model, got):
             for n in model.listdir(p) or []:
                 c.add(p + '/' + n)
                 c.add(p + '/' + n + '/')
+                # ... and one real level further (a real directory behind the link, inside the same `**`)
+                try:
+                    sub = model.listdir(p + '/' + n) if model.isdir(p + '/' + n) else []
+                except Exception:  # noqa: BLE001
+                    sub = []
+                for n2 in sub or []:
+                    c.add(p + '/' + n + '/' + n2)
     c.update(['zz', 'a/zz', 'zz/'])
     return sorted(c)
 
